@@ -54,12 +54,14 @@ def run_c20(tier, args):
     d = build()
     binary = os.path.join(d, "fsim")
     out = scratch_dir("C20")
+    nreg, regbad = run_regressions("C20", lambda t: binary)
     nenum, schemas = info(binary, tier)
     nexplore = 3000 if tier == "quick" else 60000
     base = first_run_seed() - 1  # low 32 bits 0: indices 1..nenum are the enumeration
     b = run_batch(binary, "C20", tier, base + 1, nenum + nexplore, out)
     log("[C20] %d enumerated single-fault runs + %d explored histories in %.1fs, %d violating" % (nenum, nexplore, b.wall, len(b.violations)))
     nviol, herr = gate_and_report("C20", binary, b, out, tier=tier)
+    nviol += regbad
     total = b
     if tier == "thorough":
         da = build("asan")
@@ -86,6 +88,7 @@ def run_c20(tier, args):
         probes={k: v for k, v in total.counters.items() if k.startswith("probe.") or k.startswith("history.")},
         plans_per_hour=int(total.runs / max(wall, 1e-9) * 3600),
         simulated_time="n/a (no clock in sbeppc); steps = interposed file calls",
+        regression_plans_replayed=nreg,
         real_components=REAL,
         stub_components=STUB,
         worker_deaths=total.worker_deaths,
@@ -102,9 +105,11 @@ def run_c09(tier, args):
     out = scratch_dir("C09")
     n = 30000 if tier == "quick" else 600000
     first = first_run_seed()
+    nreg, regbad = run_regressions("C09", lambda t: binary)
     b = run_batch(binary, "C09", tier, first, n, out)
     log("[C09] %d plans in %.1fs, %d violating, %d worker restarts" % (b.runs, b.wall, len(b.violations), b.worker_deaths))
     nviol, herr = gate_and_report("C09", binary, b, out, tier=tier, max_reports=6)
+    nviol += regbad
     total = b
     if tier == "thorough":
         da = build("asan")
@@ -126,6 +131,7 @@ def run_c09(tier, args):
         rejected_clean=total.counters.get("c09.rejected_clean", 0),
         plans_per_hour=int(total.runs / max(wall, 1e-9) * 3600),
         simulated_time="n/a; steps = sbeppc runs",
+        regression_plans_replayed=nreg,
         real_components=REAL,
         stub_components=STUB,
         worker_deaths=total.worker_deaths,
